@@ -4,6 +4,7 @@ Rust harness runs the implementation on.  One request per line, one canonical
 result line per request.  Floats travel as decimal bit patterns.
 -/
 import Kodama.Model.Linkage
+import Kodama.DriverC19
 namespace Kodama
 
 class Bits (α : Type) where
@@ -44,6 +45,7 @@ def Slots.put {α} (s : Slots α) (id : Nat) (v : State α × Dendrogram α) : S
 structure DriverState where
   s64 : Slots Float := ⟨[]⟩
   s32 : Slots Float32 := ⟨[]⟩
+  c19 : C19State := {}
 
 def doCall {α} [Num α] [Bits α] (alg : Alg) (m : Method) (chk : Bool) (n : Nat) (bits : Array Nat) :
     String :=
@@ -81,6 +83,9 @@ def step (ds : DriverState) (line : String) : DriverState × String :=
         ({ ds with s32 := s }, out)
       else (ds, "bad-op")
     | _, _, _, _, _ => (ds, "bad-op")
+  | "dend" :: rest =>
+    let (c, out) := stepC19 ds.c19 rest
+    ({ ds with c19 := c }, out)
   | _ => (ds, "bad-op")
 
 partial def loop (h : IO.FS.Stream) (out : IO.FS.Stream) (ds : DriverState) : IO Unit := do
